@@ -37,10 +37,15 @@ impl<L: LitName> Subject for Cnf<L> {
             Ok(p) => p,
             Err(e) => return end_of(e),
         };
-        if let Some(h) = p.header() {
-            emit(format!("header vars={} clauses={}", h.var_count, h.clause_count));
+        let header0 = p.header().map(|h| format!("header vars={} clauses={}", h.var_count, h.clause_count));
+        if let Some(h) = &header0 {
+            emit(h.clone());
         }
         loop {
+            // the header accessor may be called between items: its answer never changes
+            if p.header().map(|h| format!("header vars={} clauses={}", h.var_count, h.clause_count)) != header0 {
+                emit("HEADER-CHANGED: header() answers differently between items".to_string());
+            }
             match p.next_clause() {
                 Ok(Some(c)) => emit(format!("clause {}", lits(c))),
                 Ok(None) => {
@@ -73,10 +78,15 @@ impl<L: LitName> Subject for Wcnf<L> {
             Ok(p) => p,
             Err(e) => return end_of(e),
         };
-        if let Some(h) = p.header() {
-            emit(format!("header vars={} clauses={} top={}", h.var_count, h.clause_count, h.top_weight));
+        let header0 = p.header().map(|h| format!("header vars={} clauses={} top={}", h.var_count, h.clause_count, h.top_weight));
+        if let Some(h) = &header0 {
+            emit(h.clone());
         }
         loop {
+            // the header accessor may be called between items: its answer never changes
+            if p.header().map(|h| format!("header vars={} clauses={} top={}", h.var_count, h.clause_count, h.top_weight)) != header0 {
+                emit("HEADER-CHANGED: header() answers differently between items".to_string());
+            }
             match p.next_clause() {
                 Ok(Some((w, c))) => emit(format!("clause w={w} {}", lits(c))),
                 Ok(None) => {
@@ -109,10 +119,15 @@ impl<L: LitName> Subject for Gcnf<L> {
             Ok(p) => p,
             Err(e) => return end_of(e),
         };
-        if let Some(h) = p.header() {
-            emit(format!("header vars={} clauses={} groups={}", h.var_count, h.clause_count, h.group_count));
+        let header0 = p.header().map(|h| format!("header vars={} clauses={} groups={}", h.var_count, h.clause_count, h.group_count));
+        if let Some(h) = &header0 {
+            emit(h.clone());
         }
         loop {
+            // the header accessor may be called between items: its answer never changes
+            if p.header().map(|h| format!("header vars={} clauses={} groups={}", h.var_count, h.clause_count, h.group_count)) != header0 {
+                emit("HEADER-CHANGED: header() answers differently between items".to_string());
+            }
             match p.next_clause() {
                 Ok(Some((g, c))) => emit(format!("clause g={g} {}", lits(c))),
                 Ok(None) => {
